@@ -472,6 +472,12 @@ void execute_member_assignment(StatementExecutor *executor,
 
     // 参照の場合は実際の変数を取得
     if (target_var && target_var->is_reference) {
+        // const T& r: r.x = v is rejected whatever r is bound to
+        if (target_var->is_const) {
+            throw std::runtime_error(
+                "Cannot assign to member of const struct: " + obj_name + "." +
+                member_name);
+        }
         Variable *actual_var = reinterpret_cast<Variable *>(target_var->value);
         if (!actual_var) {
             throw std::runtime_error("Invalid reference in member assignment");
